@@ -135,6 +135,9 @@ KNot(a) == IF Bad(a) THEN a ELSE IF a[1] = "b" THEN B(~a[2]) ELSE U
 
 ExactZeroFuns == {"sin", "tan", "asin", "atan", "deg", "rad"}
 
+RECURSIVE GcdSeq(_)
+GcdSeq(q) == IF Len(q) = 1 THEN Abs(q[1][2]) ELSE GcdN(Abs(q[1][2]), GcdSeq(Tail(q)))
+
 RECURSIVE Eval(_, _, _)
 
 EvalSeq(q, rho, strict) == [i \in 1..Len(q) |-> Eval(q[i], rho, strict)]
@@ -171,7 +174,16 @@ ApplyFun(f, args) ==
               ELSE FoldNum(Tail(es[2]), f, es[2][1])
            ELSE IF ~IsNum(a) THEN U ELSE FoldNum(Tail(args), f, a))
     [] f = "gcd"   -> (IF Len(args) = 2 /\ IsInt(args[1]) /\ IsInt(args[2])
-                       THEN N(GcdN(Abs(args[1][2]), Abs(args[2][2]))) ELSE O)
+                       THEN N(GcdN(Abs(args[1][2]), Abs(args[2][2])))
+                       ELSE IF Len(args) = 1 /\ a[1] \in {"set", "arr", "rng"} THEN
+                            \* greatest common divisor of the members of a collection of integers (non-negative; of one
+                            \* member: its absolute value)
+                            LET es == Elems(a, FALSE) IN
+                            IF es[1] # "ints" THEN es
+                            ELSE IF es[2] = <<>> THEN U
+                            ELSE IF \E i \in 1..Len(es[2]) : ~IsInt(es[2][i]) THEN O
+                            ELSE N(GcdSeq(es[2]))
+                       ELSE O)
     [] OTHER -> O
 
 Member(x, c) ==
